@@ -1,17 +1,20 @@
 import Jrpc.Oracle.Util
 import Jrpc.Oracle.C14
+import Jrpc.Oracle.C17
 /-! The model oracle: one line in, one line out. First token selects the sub-command. -/
 open Jrpc.Oracle
 
 def dispatch (line : String) : String :=
   match tokens line with
   | "c14" :: r => C14.handle r
+  | "c17" :: r => C17.handle r
+  | "c17n" :: r => C17.handleNames r
   | _ => "bad-op"
 
 partial def loop (h : IO.FS.Stream) (out : IO.FS.Stream) : IO Unit := do
   let line ← h.getLine
   if line.isEmpty then return ()
-  out.putStrLn (dispatch (line.dropRightWhile (· == '\n')))
+  out.putStrLn (dispatch ((line.splitOn "\n").head!))
   loop h out
 
 def main : IO Unit := do
